@@ -401,6 +401,35 @@ pub fn run(_tier: Tier) -> Outcome {
             }
             let _ = code;
         }
+        // ---- the entitled key is named in its account slot but does not sign (a stranger signs and pays)
+        if !matches!(g.role, Role::Anyone) {
+            let mut tx = gtx.clone();
+            // (whether the slot is declared a signer slot is the program's own business: the account metas come
+            // from the program's account structs, so a slot that lost its `Signer` type arrives unsigned already)
+            let stripped = tx.signers.contains(&gk) && tx.ixs.iter().any(|i| i.accounts.iter().any(|m| m.pubkey == gk));
+            for i in tx.ixs.iter_mut() {
+                for m in i.accounts.iter_mut() {
+                    if m.pubkey == gk {
+                        m.is_signer = false;
+                    }
+                }
+            }
+            if stripped {
+                tx.signers.remove(&gk);
+                tx.signers.insert(act::stranger());
+                let (ok, _) = run_tx(&s0, &tx);
+                st.cells += 1;
+                *st.classes.entry(format!("unsigned_role_key:{}", if ok { "ok" } else { "refused" })).or_insert(0) += 1;
+                if ok {
+                    st.found.push(Found {
+                        clause: "C08.signer_not_entitled".into(),
+                        sig: format!("{}:unsigned_role_key", g.name),
+                        detail: format!("{} succeeded with the {:?} key merely named in its account slot, without that key's signature", g.name, g.role),
+                        replay: json!({"model": "C08", "golden": g.name, "signer": "unsigned_role_key", "state": "Normal"}),
+                    });
+                }
+            }
+        }
         // ---- account-state matrix for instructions that act on a user account
         if let (Kind::User { .. }, Some(u)) = (g.kind, g.subject) {
             for stt in [AState::Frozen, AState::Receivership, AState::Flashloan, AState::Disabled] {
@@ -481,9 +510,35 @@ pub fn run(_tier: Tier) -> Outcome {
                         continue;
                     }
                     if ok && sub.forge.is_none() && crate::canon::state_key(&t, &[]) == golden_post_key {
-                        // the program never looks at this slot: the outcome is bit-identical to the golden call
-                        *st.classes.entry(format!("substitute:{}:slot_ignored_by_program", class)).or_insert(0) += 1;
-                        st.ignored.push(format!("{} ix#{} slot {} ({}): {}", g.name, ii, j, class, sub.what));
+                        // bit-identical to the golden call: either the program never looks at this slot, or the
+                        // foreign account happens to hold what the right one holds and was read and accepted.
+                        // The same account with its data zeroed tells the two apart.
+                        let mut s2 = s1.clone();
+                        let mut read = false;
+                        if let Some(orig) = s1.get(&sub.key) {
+                            let mut blank = orig.clone();
+                            blank.digest = Default::default();
+                            for b in blank.data.iter_mut() {
+                                *b = 0;
+                            }
+                            s2.set(sub.key, blank);
+                            let mut t3 = s2.clone();
+                            let r3 = process_tx(&mut t3, &tx);
+                            t3.set(sub.key, orig.clone());
+                            read = !(r3.ok() && crate::canon::state_key(&t3, &[]) == golden_post_key);
+                        }
+                        if !read {
+                            *st.classes.entry(format!("substitute:{}:slot_ignored_by_program", class)).or_insert(0) += 1;
+                            st.ignored.push(format!("{} ix#{} slot {} ({}): {}", g.name, ii, j, class, sub.what));
+                            continue;
+                        }
+                        *st.classes.entry(format!("substitute:{}:read_and_ACCEPTED", class)).or_insert(0) += 1;
+                        st.found.push(Found {
+                            clause: "C08.substitution_rejected".into(),
+                            sig: format!("{}:slot{}:{}", g.name, j, class),
+                            detail: format!("{} (instruction #{ii}) accepted {} in account slot {} ({}) with the same outcome as the right account; the program does read this slot (the same substitute with zeroed data changes the result)", g.name, sub.what, j, class),
+                            replay: json!({"model": "C08sub", "golden": g.name, "ix": ii, "slot": j, "what": sub.what}),
+                        });
                         continue;
                     }
                     if ok && sub.forge.is_some() {
@@ -678,7 +733,7 @@ pub fn run(_tier: Tier) -> Outcome {
     o.coverage = json!({
         "evaluations": st.cells,
         "distinct_nontrivial": refused,
-        "rule": "for each instruction a golden call (asserted to succeed from its prepared state); then every cell of instruction x 12 signer identities, every cell of (balance-changing instruction) x {frozen, in-receivership, in-flash-loan, disabled} x 12 signers, and every cell of instruction x account slot x substitute (foreign group's group/bank/account/staked settings, another bank's vaults / authorities / oracle, other-kind vault, look-alike PDA with identical bytes, wrong owner program, wrong discriminator, another program, another mint); a cell outside the role table of the statement must be refused; a forged substitute accepted with the golden outcome is re-presented with zeroed data to tell an ignored slot from a read one; plus every instruction x {normal, frozen subject} with the foreign group in the group slot signed by the foreign group's role holders, and marginfi_group_configure rotating each of the seven roles to a fresh key, the zero key and every other role's key (alone and together with a neighbouring role), checked on the stored roles and on the old holder's instruction; distinct_nontrivial = refused cells",
+        "rule": "for each instruction a golden call (asserted to succeed from its prepared state); then every cell of instruction x 12 signer identities, the golden call with the entitled key named but not signing, every cell of (balance-changing instruction) x {frozen, in-receivership, in-flash-loan, disabled} x 12 signers, and every cell of instruction x account slot x substitute (foreign group's group/bank/account/staked settings, another bank's vaults / authorities / oracle, other-kind vault, look-alike PDA with identical bytes, wrong owner program, wrong discriminator, another program, another mint); a cell outside the role table of the statement must be refused; a forged substitute accepted with the golden outcome is re-presented with zeroed data to tell an ignored slot from a read one; plus every instruction x {normal, frozen subject} with the foreign group in the group slot signed by the foreign group's role holders, and marginfi_group_configure rotating each of the seven roles to a fresh key, the zero key and every other role's key (alone and together with a neighbouring role), checked on the stored roles and on the old holder's instruction; distinct_nontrivial = refused cells",
         "instructions": gs.len(),
         "golden_calls": gs.iter().map(|g| g.name).collect::<Vec<_>>(),
         "program_instructions_without_golden_call": instructions_without_golden(&gs),
